@@ -221,6 +221,15 @@ def _case(rng, op, malformed=False, small=False):
         segs = _segments(rng, rows, thr) if rng.random() < 0.55 else None
         if segs is not None and not segs:
             segs = None
+        if thr in (0.0, 0.5, 0.25, 1.0, 0.125) and rng.random() < 0.6:
+            # exact ties: every bin of some genes sits at +-thr with dyadic weights, so the weighted mean is
+            # exactly the threshold in float arithmetic as well
+            genes = sorted({r[4] for r in rows if r[4].startswith("G") and "," not in r[4]})
+            for g in rng.sample(genes, min(len(genes), 2)):
+                sgn = rng.choice([1, -1])
+                for r in rows:
+                    if r[4] == g:
+                        r[5], r[6], r[7] = frac(sgn * thr), frac(float(rng.randint(1, 40))), frac(rng.choice([0.25, 0.5, 1.0]))
         inp.update(segs=segs, thr=frac(thr), thr_f=thr, min_probes=rng.choice([0, 1, 2, 3, 3, 5]),
                    skip_low=rng.random() < 0.5, hapx=rng.random() < 0.5, female=rng.choice([True, False, None]))
         tag += "-segments" if segs else "-genes"
@@ -265,6 +274,11 @@ def corpus():
          "in": {"rows": gm, "segs": [["chr1", 0, 20, "-", frac(0.5), 2, None], ["chr1", 20, 60, "-", frac(-0.5), 4, None]],
                 "min_probes": 1}},
     ]
+    zw = [_b(0, "chr1", 0, 10, "A", 1.0, 1.0, 0.0), _b(1, "chr1", 10, 20, "A", 1.0, 1.0, 0.0), _b(2, "chr1", 20, 30, "B", 1.0, 2.0, 0.5)]
+    # excluded point: a gene whose weights sum to zero has no weight-averaged depth; np.average raises
+    cs.append({"op": "genemetrics", "tag": "corpus-zero-weights",
+               "in": {"rows": zw, "segs": None, "thr": frac(0.2), "thr_f": 0.2, "min_probes": 1, "skip_low": False,
+                      "hapx": False, "female": True}})
     cs.append({"op": "by_gene", "tag": "corpus-empty", "in": {"rows": [], "ignore": None}})
     cs.append({"op": "squash_genes", "tag": "corpus-empty",
                "in": {"rows": [], "summary": "mean", "squash_antitarget": False, "ignore": None}})
@@ -275,7 +289,7 @@ def corpus():
 
 
 def gen_cases(rng, tier):
-    n = {"quick": 500, "thorough": 4000, "search": 800}[tier]
+    n = {"quick": 400, "thorough": 4000, "search": 800}[tier]
     cases = []
     for k in range(n):
         small = k % 4 == 0
